@@ -1007,7 +1007,14 @@ impl<'a> PGen<'a> {
             0 | 1 => {
                 // counter pattern (up or down)
                 let lim = ch.range(0, 3);
-                let (init, cond, step) = if kind == 0 {
+                let (init, cond, step) = if kind == 1 && ch.chance(1, 2) {
+                    // counts up from a negative value: the condition is non-zero and negative
+                    (
+                        Expr::konst(-lim),
+                        Expr::var(&wname),
+                        Expr::bin(BinOp::Add, Expr::var(&wname), Expr::lit(1)),
+                    )
+                } else if kind == 0 {
                     (
                         Expr::lit(0),
                         Expr::bin(BinOp::Lt, Expr::var(&wname), Expr::lit(lim as u64)),
